@@ -31,37 +31,36 @@ fn mk(def_body: Vec<Stmt>, ret: Ty, family: &'static str) -> Program {
     Program { def, key, family }
 }
 
-/// The deterministic program corpus of a tier.
-pub fn corpus(tier: Tier) -> Vec<Program> {
+/// The deterministic program corpus of a tier, streamed to `sink` (duplicates by text removed).
+pub fn for_each_program(tier: Tier, sink: &mut dyn FnMut(Program)) {
     let g = Gen::new();
-    let mut out: Vec<Program> = Vec::new();
-    let mut seen: BTreeSet<String> = BTreeSet::new();
-    let mut push = |out: &mut Vec<Program>, p: Program| {
-        if seen.insert(p.key.clone()) {
-            out.push(p);
+    let mut seen: std::collections::HashSet<u64> = std::collections::HashSet::new();
+    let mut push = |p: Program| {
+        if seen.insert(mcx::fnv64(p.key.as_bytes())) {
+            sink(p);
         }
     };
     // leaves
     for t in Ty::ALL {
         for l in gen::rich_leaves(t) {
-            push(&mut out, mk(gen::ret_body(l), t, "leaf"));
+            push(mk(gen::ret_body(l), t, "leaf"));
         }
     }
     for (t, e) in g.full1() {
-        push(&mut out, mk(gen::ret_body(e), t, "full1"));
+        push(mk(gen::ret_body(e), t, "full1"));
     }
     let d1 = g.depth1_small();
     let s2 = g.spine(&d1);
     for (t, es) in &s2 {
         for e in es {
-            push(&mut out, mk(gen::ret_body(e.clone()), *t, "spine2"));
+            push(mk(gen::ret_body(e.clone()), *t, "spine2"));
         }
     }
     for (t, e) in g.square2() {
-        push(&mut out, mk(gen::ret_body(e), t, "square2"));
+        push(mk(gen::ret_body(e), t, "square2"));
     }
     for (t, e) in g.never_family() {
-        push(&mut out, mk(gen::ret_body(e), t, "never"));
+        push(mk(gen::ret_body(e), t, "never"));
     }
     // statement templates: holes over leaves + depth-1
     let mut pool = d1.clone();
@@ -71,22 +70,18 @@ pub fn corpus(tier: Tier) -> Vec<Program> {
         pool.insert(t, l);
     }
     for (t, body) in g.statement_bodies(&pool) {
-        push(&mut out, mk(body, t, "stmt1"));
+        push(mk(body, t, "stmt1"));
     }
     if tier == Tier::Thorough {
-        // depth 3: every operator around every spine-2 expression (pairwise-nested chains of 3)
-        let s3 = g.spine(&s2);
-        for (t, es) in &s3 {
-            for e in es {
-                push(&mut out, mk(gen::ret_body(e.clone()), *t, "spine3"));
-            }
-        }
-        // statement templates with depth-2 holes
-        for (t, body) in g.statement_bodies(&s2) {
-            push(&mut out, mk(body, t, "stmt2"));
-        }
+        // depth 3: every operator, every position, around every spine-2 expression
+        g.spine_stream(&s2, true, &mut |t, e| push(mk(gen::ret_body(e), t, "spine3")));
     }
-    out
+}
+
+pub fn corpus(tier: Tier) -> Vec<Program> {
+    let mut v = Vec::new();
+    for_each_program(tier, &mut |p| v.push(p));
+    v
 }
 
 fn s_val(a: i64, b: bool) -> Val {
@@ -329,6 +324,10 @@ pub fn tuple_text(t: &[Val]) -> String {
     PARAMS.iter().zip(t).map(|((n, _), v)| format!("{n}={}", val_text(v))).collect::<Vec<_>>().join(" ")
 }
 
+pub fn tuple_text_named(sig: &[(&str, Ty)], t: &[Val]) -> String {
+    sig.iter().zip(t).map(|((n, _), v)| format!("{n}={}", val_text(v))).collect::<Vec<_>>().join(" ")
+}
+
 pub fn val_text(v: &Val) -> String {
     match v {
         Val::Int(n) => n.to_string(),
@@ -364,17 +363,38 @@ pub fn run_corpus(rep: &mut Report, programs: &[Program], tuples: &[Vec<Val>], m
     }
 }
 
+/// Generate the corpus in bounded chunks and run each chunk in parallel (memory stays bounded).
+pub fn run_streamed(rep: &mut Report, tier: Tier, tuples: &[Vec<Val>], mode: Mode) {
+    const CHUNK: usize = BATCH * 128;
+    let mut pending: Vec<Program> = Vec::with_capacity(CHUNK);
+    let mut total = 0usize;
+    // samples: one program per family, the first seen
+    let mut sampled: BTreeSet<&'static str> = BTreeSet::new();
+    let rep_cell = std::cell::RefCell::new(rep);
+    for_each_program(tier, &mut |p| {
+        if sampled.insert(p.family) {
+            rep_cell.borrow_mut().sample(json!({"program": p.key, "family": p.family}));
+        }
+        pending.push(p);
+        total += 1;
+        if pending.len() >= CHUNK {
+            run_corpus(&mut rep_cell.borrow_mut(), &pending, tuples, mode);
+            pending.clear();
+        }
+    });
+    if !pending.is_empty() {
+        run_corpus(&mut rep_cell.borrow_mut(), &pending, tuples, mode);
+    }
+}
+
 pub fn run(args: &Args) {
     let mut rep = Report::new(args, Level::ModelChecking);
+    rep.set_max_samples(12);
     if let Some(path) = &args.replay {
         return replay(args, rep, path);
     }
-    let programs = corpus(args.tier);
     let tuples = arg_tuples(args.tier);
-    for p in programs.iter().step_by((programs.len() / 5).max(1)).take(5) {
-        rep.sample(json!({"program": p.key, "family": p.family}));
-    }
-    run_corpus(&mut rep, &programs, &tuples, Mode::Semantics);
+    run_streamed(&mut rep, args.tier, &tuples, Mode::Semantics);
     finish_common(&mut rep, args, tuples.len());
     if rep.counter("unmodelled") > 0 {
         mcx::machinery_error("generator produced programs the reference interpreter does not model");
@@ -405,8 +425,12 @@ fn replay(args: &Args, mut rep: Report, path: &std::path::Path) {
         .and_then(|s| mcx::serde_json::from_str(&s).ok())
         .unwrap_or_else(|| mcx::machinery_error("cannot read replay file"));
     let key = body["replay"]["program"].as_str().unwrap_or("").to_string();
-    let programs: Vec<Program> =
-        [Tier::Quick, Tier::Thorough].into_iter().flat_map(corpus).filter(|p| p.key == key).take(1).collect();
+    let mut programs: Vec<Program> = Vec::new();
+    for_each_program(Tier::Thorough, &mut |p| {
+        if p.key == key && programs.is_empty() {
+            programs.push(p);
+        }
+    });
     if programs.is_empty() {
         mcx::machinery_error("replay program is not in the corpus of either tier");
     }
